@@ -18,6 +18,13 @@ if TYPE_CHECKING:
     from typing_extensions import Self
 
 
+def _timedelta_to_microseconds(delta: timedelta) -> int:
+    if isinstance(delta, Duration):
+        return delta._to_microseconds()
+
+    return (delta.days * (24 * 3600) + delta.seconds) * 1000000 + delta.microseconds
+
+
 def _divide_and_round(a: float, b: float) -> int:
     """divide a by b and round result to the nearest integer
 
@@ -389,7 +396,7 @@ class Duration(timedelta):
         usec = self._to_microseconds()
         if isinstance(other, timedelta):
             return cast(
-                int, usec // other._to_microseconds()  # type: ignore[attr-defined]
+                int, usec // _timedelta_to_microseconds(other)  # type: ignore[attr-defined]
             )
 
         if isinstance(other, int):
@@ -416,7 +423,7 @@ class Duration(timedelta):
         usec = self._to_microseconds()
         if isinstance(other, timedelta):
             return cast(
-                float, usec / other._to_microseconds()  # type: ignore[attr-defined]
+                float, usec / _timedelta_to_microseconds(other)  # type: ignore[attr-defined]
             )
 
         if isinstance(other, int):
@@ -443,7 +450,7 @@ class Duration(timedelta):
 
     def __mod__(self, other: timedelta) -> Self:
         if isinstance(other, timedelta):
-            r = self._to_microseconds() % other._to_microseconds()  # type: ignore[attr-defined] # noqa: E501
+            r = self._to_microseconds() % _timedelta_to_microseconds(other)  # type: ignore[attr-defined] # noqa: E501
 
             return self.__class__(0, 0, r)
 
@@ -453,7 +460,7 @@ class Duration(timedelta):
         if isinstance(other, timedelta):
             q, r = divmod(
                 self._to_microseconds(),
-                other._to_microseconds(),  # type: ignore[attr-defined]
+                _timedelta_to_microseconds(other),  # type: ignore[attr-defined]
             )
 
             return q, self.__class__(0, 0, r)
